@@ -255,7 +255,11 @@ func c10Run(r *kit.Run, idx int64, c c10Case, rng *rand.Rand) {
 				return false
 			}
 		}) {
-			if cs, q := kit.Quiesce(c10Watchdog); q {
+			if cs, q := kit.Quiesce(c10Watchdog); isClosed(d) {
+				// returned late (slow machine): not a verdict
+				serviceDone.Store(true)
+				return
+			} else if q {
 				note("wait-never-returns", fmt.Sprintf("Start/Wait callers are still blocked although the service was ended by %s; at quiescence: %v", c.End, cs.Describe()))
 			} else {
 				inconclusive = "callers did not return, not quiescent"
